@@ -107,6 +107,59 @@ theorem mulAdm_S {env : Env} (he : EnvOK env) {N S : Nat} (hN : 0 < N) {mk : Mul
     nlinarith
   exact_mod_cast this
 
+/-- the product contract between ciphertexts of at most `S` limbs (the temporaries of a product tree) -/
+theorem mulAdm_leS {env : Env} (he : EnvOK env) {N S : Nat} (hN : 0 < N) {mk : MulKey} {s : List Poly} {Kb Emax : Int}
+    (hp : TskNum env N S mk s Kb Emax) {dst a b : DCt} {Hd : Int} (hd : GB N env.base2k 1 Hd dst.g) (hdS : dst.g.size ≤ S)
+    (ha : DOK env N 1 a) (haS : a.g.size ≤ S) (hb : DOK env N 1 b) (hbS : b.g.size ≤ S) {m : Ct}
+    (hm : mulInto env dst.ct a.ct b.ct = .ok m) {q : MulP} (hq : mulCtParams env dst.ct a.ct b.ct = .ok q) :
+    MulAdm env N 1 s (UcScaled env (UcOf env N S mk s Emax) dst.ct a.ct b.ct) dst a b (dMulInto env N mk dst a b) q := by
+  obtain ⟨q', hq', _, hl1, hl2⟩ := mulInto_lims hm
+  have hLb : divCeil b.md.effK env.base2k ≤ S := by
+    have := hl2.1
+    simp only [effLimbs, DCt.ct] at this
+    omega
+  have ha1 : 1 ≤ a.md.effK := effK_pos_of_limbs he.lo hl1.2
+  have hhi := mulCt_hhi he.lo hq ha1
+  have hroom : 2 ^ env.base2k * (4 * (divCeil b.md.effK env.base2k : Int) * N * 2 ^ env.base2k) + 8 ≤ 2 ^ (bitsOf mk.big - 2) := by
+    refine le_trans ?_ hp.hroomMul
+    have hL : ((divCeil b.md.effK env.base2k : Nat) : Int) ≤ S := by exact_mod_cast hLb
+    have h0 : (0 : Int) ≤ (N : Int) * 2 ^ env.base2k := by positivity
+    have h1 : (0 : Int) ≤ 2 ^ env.base2k := by positivity
+    have h2 := mul_le_mul_of_nonneg_right hL h0
+    have e1 : 4 * ((divCeil b.md.effK env.base2k : Nat) : Int) * N * 2 ^ env.base2k
+        = 4 * (((divCeil b.md.effK env.base2k : Nat) : Int) * ((N : Int) * 2 ^ env.base2k)) := by ring
+    have e2 : 4 * (S : Int) * N * 2 ^ env.base2k = 4 * ((S : Int) * ((N : Int) * 2 ^ env.base2k)) := by ring
+    rw [e1, e2]
+    have h3 := mul_le_mul_of_nonneg_left (show 4 * (((divCeil b.md.effK env.base2k : Nat) : Int) * ((N : Int) * 2 ^ env.base2k))
+      ≤ 4 * ((S : Int) * ((N : Int) * 2 ^ env.base2k)) by linarith) h1
+    linarith
+  obtain ⟨EL, KL, hEL, hKL, hkey, hE⟩ := hp.hkey
+  have hmax : max a.g.size b.g.size ≤ S := Nat.max_le.mpr ⟨haS, hbS⟩
+  have h := mulAdm_numeric he hN hd ha hb hm hq hhi hroom hp.hgb hp.hgn hp.hci hp.hco hp.hd1 hp.hM hp.hS
+    (hmax.trans hp.hcov1) (hmax.trans hp.hcov2) hp.hs hp.hs1 hEL hKL hkey hp.hK0 hp.hK hp.hE0 hE hp.hroomK
+  refine h.mono ?_
+  unfold UcScaled UcOf mulCtU relinU
+  have e1 : dst.g.size - mk.tsk.size = 0 := by have := hp.hcov1; omega
+  have e2 : S - mk.tsk.size = 0 := by have := hp.hcov1; omega
+  have e3 : S - S = 0 := Nat.sub_self S
+  simp only [e1, e2, e3, Nat.mul_zero, pow_zero, mul_one, add_zero, DCt.ct]
+  have ht := tensorU_mono N env.base2k hLb (s.getD 0 [])
+  have ht0 := tensorU_nonneg N env.base2k (divCeil b.md.effK env.base2k) (s.getD 0 [])
+  have hs0 := snorm_nonneg 1 s
+  have hG : (0 : Int) ≤ ((1 : Nat) : Int) * ((mk.tsk.dnum : Int) * ((N : Int) * 2 ^ (env.base2k - 1) * Emax)) := by
+    have := hp.hE0; positivity
+  have hX : (1 : Int) ≤ 2 ^ (env.base2k * (dst.g.size - max a.g.size b.g.size)) := one_le_pow₀ (by norm_num)
+  have key : tensorU N env.base2k (divCeil b.md.effK env.base2k) (s.getD 0 []) * 2 ^ (env.base2k * (dst.g.size - max a.g.size b.g.size))
+      + (((1 : Nat) : Int) * ((mk.tsk.dnum : Int) * ((N : Int) * 2 ^ (env.base2k - 1) * Emax)) + (1 + snorm 1 s))
+      ≤ (tensorU N env.base2k S (s.getD 0 []) + (((1 : Nat) : Int) * ((mk.tsk.dnum : Int) * ((N : Int) * 2 ^ (env.base2k - 1) * Emax)) + (1 + snorm 1 s)))
+        * 2 ^ (env.base2k * (dst.g.size - max a.g.size b.g.size)) := by
+    have hX0 : (0 : Int) ≤ 2 ^ (env.base2k * (dst.g.size - max a.g.size b.g.size)) := by positivity
+    have h1 := mul_le_mul_of_nonneg_right ht hX0
+    have hR : (0 : Int) ≤ ((1 : Nat) : Int) * ((mk.tsk.dnum : Int) * ((N : Int) * 2 ^ (env.base2k - 1) * Emax)) + (1 + snorm 1 s) := by linarith
+    have h2 := mul_le_mul_of_nonneg_left hX hR
+    nlinarith
+  exact_mod_cast key
+
 theorem UcOf_nonneg {env : Env} {N S : Nat} {mk : MulKey} {s : List Poly} {Emax : Int} (hE : 0 ≤ Emax) : 0 ≤ UcOf env N S mk s Emax := by
   unfold UcOf mulCtU relinU
   have h1 := tensorU_nonneg N env.base2k S (s.getD 0 [])
@@ -170,7 +223,6 @@ def OpOK (env : Env) (N S : Nat) (ak : AutKeys) (P : Pool) : XOp → Prop
   | .dotCt d as bs => ∀ cs ds, getAll P d as = some cs → getAll P d bs = some ds → cs.length = 1 ∨ dotUniform cs ds = false
   | .conj _ _ => ∃ key, ak.conj = some key
   | .conjAssign _ => ∃ key, ak.conj = some key
-  | .mulMany _ _ => False
   | _ => True
 
 theorem getAll_of_dgetAll (pool : DPool) (d : Nat) : ∀ (as : List Nat) (xs : List DCt), dgetAll pool d as = some xs →
@@ -297,7 +349,8 @@ theorem pool_ct {pool : DPool} {j : Nat} {x : DCt} {c : Ct} (hx : pool[j]? = som
 theorem xadm_numeric {env : Env} (he : EnvOK env) {N S : Nat} (hN : 0 < N) {mk : MulKey} {ak : AutKeys} {s : List Poly} {Kb Emax : Int}
     {Ua : ℚ} (ht : TskNum env N S mk s Kb Emax) (hk : AtkNum env N S mk.big ak s Kb Emax Ua)
     (hroomPt : (S : Int) * (N * 2 ^ env.base2k * 2 ^ env.base2k) + 8 ≤ 2 ^ (bitsOf mk.big - 2))
-    {pool : DPool} (hp : AllOK env N 1 pool) (hS : ∀ c ∈ pool, c.g.size = S) (op : XOp) (hop : OpOK env N S ak (DPool.cts pool) op)
+    {pool : DPool} (hp : AllOK env N 1 pool) (hS : ∀ c ∈ pool, c.g.size = S) (hI : Inv env (DPool.cts pool))
+    (op : XOp) (hop : OpOK env N S ak (DPool.cts pool) op)
     {mp : Pool} (hm : stepR env (DPool.cts pool) op.toOp = .ok mp) :
     XAdm env N 1 mk ak s (UcOf env N S mk s Emax) Ua pool op := by
   have sz : ∀ {j : Nat} {c : DCt}, pool[j]? = some c → c.g.size = S := fun h => hS _ (List.mem_of_getElem? h)
@@ -344,7 +397,16 @@ theorem xadm_numeric {env : Env} (he : EnvOK env) {N S : Nat} (hN : 0 < N) {mk :
     obtain ⟨hbk, ha1⟩ := mulPtZnx_facts he.lo hpm
     exact mulPt_hhi he.lo hbk hq ha1
   | addMany d as => trivial
-  | mulMany d as => exact hop.elim
+  | mulMany d as =>
+    refine ⟨S, ⟨UcScaled_nonneg (UcOf_nonneg ht.hE0), fun dd a b hdd ha hb hds has hbs mt hmi q hq => ?_⟩,
+      fun cd hd => le_of_eq (sz hd), fun a _ ca hca => ⟨le_of_eq (sz hca), ?_⟩⟩
+    · exact mulAdm_leS he hN ht hdd hds ha has hb hbs hmi hq
+    · have hmem : ca.ct ∈ DPool.cts pool := List.mem_map.mpr ⟨ca, List.mem_of_getElem? hca, rfl⟩
+      have := hI ca.ct hmem
+      unfold Ct.inv at this
+      have e : ca.ct.size = S := sz hca
+      rw [e] at this
+      exact this
   | dotCt d as bs =>
     refine ⟨fun xs ys hxs hys => ?_, fun cd hd ab hab ca cb ha hb dd hdd hds mt hmi q hq => ?_⟩
     · have := hop (xs.map DCt.ct) (ys.map DCt.ct) (getAll_of_dgetAll pool d as xs hxs) (getAll_of_dgetAll pool d bs ys hys)
@@ -411,16 +473,17 @@ theorem sizes_all {pool : DPool} {S : Nat} : (∀ c ∈ pool, c.g.size = S) ↔ 
 theorem runAdm_numeric {env : Env} (he : EnvOK env) {N S : Nat} (hN : 0 < N) {mk : MulKey} {ak : AutKeys} {s : List Poly} {Kb Emax : Int}
     {Ua : ℚ} (hUa : 0 ≤ Ua) (ht : TskNum env N S mk s Kb Emax) (hk : AtkNum env N S mk.big ak s Kb Emax Ua)
     (hroomPt : (S : Int) * (N * 2 ^ env.base2k * 2 ^ env.base2k) + 8 ≤ 2 ^ (bitsOf mk.big - 2)) :
-    ∀ (ops : List XOp) {pool : DPool}, AllOK env N 1 pool → (∀ c ∈ pool, c.g.size = S) → OpsOK env N S ak (DPool.cts pool) ops →
+    ∀ (ops : List XOp) {pool : DPool}, AllOK env N 1 pool → (∀ c ∈ pool, c.g.size = S) → Inv env (DPool.cts pool) →
+      OpsOK env N S ak (DPool.cts pool) ops →
       ∀ {mp : Pool}, run env (DPool.cts pool) (ops.map XOp.toOp) = .ok mp →
         RunAdm env N 1 mk ak s (UcOf env N S mk s Emax) Ua pool ops
-  | [], _, _, _, _, _, _ => trivial
-  | op :: rest, pool, hp, hS, hops, mp, hm => by
+  | [], _, _, _, _, _, _, _ => trivial
+  | op :: rest, pool, hp, hS, hI, hops, mp, hm => by
     simp only [List.map_cons, run] at hm
     cases h1 : stepR env (DPool.cts pool) op.toOp with
     | ok P' =>
       rw [h1] at hm
-      have hadm := xadm_numeric he hN ht hk hroomPt hp hS op hops.1 h1
+      have hadm := xadm_numeric he hN ht hk hroomPt hp hS hI op hops.1 h1
       refine ⟨hadm, fun pool' hx => ?_⟩
       obtain ⟨pool1, e1, c1, ok1, _⟩ := xstep_sem he hN hp s (UcOf_nonneg ht.hE0) hUa op hadm h1
       have : pool1 = pool' := by
@@ -430,7 +493,8 @@ theorem runAdm_numeric {env : Env} (he : EnvOK env) {N S : Nat} (hN : 0 < N) {mk
       have hS' : ∀ c ∈ pool1, c.g.size = S := by
         rw [sizes_all, c1, stepR_sizes op h1, ← sizes_all]
         exact hS
-      exact runAdm_numeric he hN hUa ht hk hroomPt rest ok1 hS' (by rw [c1]; exact hops.2 P' h1) (by rw [c1]; exact hm)
+      have hI' : Inv env (DPool.cts pool1) := by rw [c1]; exact stepR_ok_inv env he.lo _ _ _ hI h1
+      exact runAdm_numeric he hN hUa ht hk hroomPt rest ok1 hS' hI' (by rw [c1]; exact hops.2 P' h1) (by rw [c1]; exact hm)
     | err e P' => rw [h1] at hm; cases hm
     | panic p => rw [h1] at hm; cases hm
 
@@ -441,12 +505,13 @@ explicit constants `UcOf` and `Ua`. -/
 theorem program_correct_numeric {env : Env} (he : EnvOK env) {N S : Nat} (hN : 0 < N) {mk : MulKey} {ak : AutKeys} {s : List Poly} {Kb Emax : Int}
     {Ua : ℚ} (hUa : 0 ≤ Ua) (ht : TskNum env N S mk s Kb Emax) (hk : AtkNum env N S mk.big ak s Kb Emax Ua)
     (hroomPt : (S : Int) * (N * 2 ^ env.base2k * 2 ^ env.base2k) + 8 ≤ 2 ^ (bitsOf mk.big - 2))
-    (ops : List XOp) {pool : DPool} (hp : AllOK env N 1 pool) (hS : ∀ c ∈ pool, c.g.size = S) (hops : OpsOK env N S ak (DPool.cts pool) ops)
+    (ops : List XOp) {pool : DPool} (hp : AllOK env N 1 pool) (hS : ∀ c ∈ pool, c.g.size = S) (hI : Inv env (DPool.cts pool))
+    (hops : OpsOK env N S ak (DPool.cts pool) ops)
     {mp : Pool} (hm : run env (DPool.cts pool) (ops.map XOp.toOp) = .ok mp) :
     ∃ pool', xrun env N mk ak pool ops = .ok pool' ∧ DPool.cts pool' = mp ∧ AllOK env N 1 pool' ∧ (∀ c ∈ pool', c.g.size = S) ∧
       ∀ τ, TracksB s N pool τ → TracksB s N pool' (xspecRun env N ak (sn 1 s) (UcOf env N S mk s Emax) Ua (DPool.cts pool) τ ops) := by
   obtain ⟨pool', h1, h2, h3, h4⟩ := xrun_sem he hN s (UcOf_nonneg ht.hE0) hUa ops hp
-    (runAdm_numeric he hN hUa ht hk hroomPt ops hp hS hops hm) hm
+    (runAdm_numeric he hN hUa ht hk hroomPt ops hp hS hI hops hm) hm
   refine ⟨pool', h1, h2, h3, ?_, h4⟩
   rw [sizes_all, h2]
   -- the metadata run keeps the limb counts
@@ -593,12 +658,12 @@ keys, every program the metadata model accepts returns — on the data path — 
 digits, and decoded coefficients within the explicit budget `xspecRun` (constants `UcOf`, `Ua`).
 
 What is left as hypothesis: key well-formedness (`TskWF`, `AtkWF`), well-formed plaintext operands of at most `S` limbs (`OpsOK`: the output
-of the float → integer conversion and `encode`), the initial ciphertexts (`AllOK`: balanced digits; their tracking `TracksB` is what
-encryption provides), and that `ckks_dot_product_ct` is not on its fused path. -/
+of the float → integer conversion and `encode`), the initial ciphertexts (`AllOK`: balanced digits; `Inv`: `log_delta + log_budget ≤ max_k`, the
+invariant of §1; their tracking `TracksB` is what encryption provides), and that `ckks_dot_product_ct` is not on its fused path. -/
 theorem ckks_program_correct (p : ParamSet) (hr : p.Room) {env : Env} (hb : env.base2k = p.b) {mk : MulKey} (hbig : mk.big = p.big)
     {ak : AutKeys} {s : List Poly} {Emax : Int} {Ua : ℚ} (hUa : 0 ≤ Ua)
     (ht : TskWF env p.N p.S p.D mk s Emax) (hk : AtkWF env p.N p.S p.D ak s Emax Ua)
-    (ops : List XOp) {pool : DPool} (hp : AllOK env p.N 1 pool) (hS : ∀ c ∈ pool, c.g.size = p.S)
+    (ops : List XOp) {pool : DPool} (hp : AllOK env p.N 1 pool) (hS : ∀ c ∈ pool, c.g.size = p.S) (hI : Inv env (DPool.cts pool))
     (hops : OpsOK env p.N p.S ak (DPool.cts pool) ops) {mp : Pool} (hm : run env (DPool.cts pool) (ops.map XOp.toOp) = .ok mp) :
     ∃ pool', xrun env p.N mk ak pool ops = .ok pool' ∧ DPool.cts pool' = mp ∧ AllOK env p.N 1 pool' ∧ (∀ c ∈ pool', c.g.size = p.S) ∧
       ∀ τ, TracksB s p.N pool τ →
@@ -608,6 +673,6 @@ theorem ckks_program_correct (p : ParamSet) (hr : p.Room) {env : Env} (hb : env.
     rw [hb, hbig]; exact hr.2.2.2.2.2.2
   have hkn := hk.toNum hr hb
   rw [← hbig] at hkn
-  exact program_correct_numeric he hr.2.2.1 hUa (ht.toNum hr hb hbig) hkn hroomPt ops hp hS hops hm
+  exact program_correct_numeric he hr.2.2.1 hUa (ht.toNum hr hb hbig) hkn hroomPt ops hp hS hI hops hm
 
 end Ckks
